@@ -13,7 +13,7 @@ MUST_SUCCEED = {"sp-shuffle", "permutant", "swapRes", "swapRandChargeRes", "full
 RULE = ("hyp: sequence (N=1..40, all composition classes incl. very short) x 'delta-max cached on the parent or not' x a chain of 1-8 moves from "
         "{SequenceParameters.get_shuffled_sequence(frozen as set or list), SequencePermutants.get_permutant(), Sequence.swapRes(i,j), "
         "swapRandChargeRes(frozen), full_shuffle(frozen), permute_block_swap(frozen), permute_cluster_charges(frozen)} each applied to the "
-        "previous result, x frozen subset of positions (empty, few, most, all) x random tape seed (every internal PRNG is owned by the "
+        "previous result, x frozen subset of positions (empty, few, most, all) (as a set or list of Python ints or of numpy integers) x 'apply the next move to the same object again or to the result' x random tape seed (every internal PRNG is owned by the "
         "harness; draw budget 20000 per case). enum: swapRes(i,j) for all i,j on every pattern with N<=4 (quick) / N<=5 (thorough), delta-max "
         "cached or not. Oracle per move: child residues are a rearrangement of the parent's; every frozen position holds its original residue; "
         "child.len == len(child.seq); child.chargePattern equals the pattern recomputed from child.seq; a carried-over dmax != -1 equals the "
@@ -38,7 +38,9 @@ def pat_of(obj):
     return [int(x) for x in np.asarray(obj.chargePattern).tolist()]
 
 
-def do_move(cur, name, frozen, extra, as_list):
+def do_move(cur, name, frozen, extra, as_list, as_np=False):
+    if as_np:
+        frozen = [np.int64(f) for f in frozen]        # positions as np.arange / np.where (and the sampler's freeze-file parser) produce them
     fz = list(frozen) if as_list else set(frozen)
     if name == "sp-shuffle":
         SPc = util.env.SP()
@@ -73,12 +75,14 @@ def check(ctx, case):
         for mi, mv in enumerate(case["moves"]):
             name, frozen, extra = mv[0], [f % len(seq) for f in mv[1]], mv[2]
             as_list = bool(mv[3]) if len(mv) > 3 else False
+            as_np = bool(mv[4]) if len(mv) > 4 else False
+            stay = bool(mv[5]) if len(mv) > 5 else False
             if name in ("permutant", "swapRes"):
                 frozen = []           # these two take no frozen argument
             before = dict(seq=cur.seq, pat=pat_of(cur), dmax=cur.dmax, phos=list(cur.phosphosites), len=cur.len)
             what = "move %d %s(frozen=%s%s) on %s" % (mi, name, sorted(set(frozen)), "" if name != "swapRes" else ", i,j=%s" % extra, cur.seq)
             try:
-                child = do_move(cur, name, frozen, extra, as_list)
+                child = do_move(cur, name, frozen, extra, as_list, as_np)
             except tape.Budget:
                 ctx.cls("budget:" + name)
                 raise Inconclusive()
@@ -116,7 +120,7 @@ def check(ctx, case):
             ctx.check(ref.close(child.delta(), fresh.delta()), "delta", "%s: child delta %r, fresh %r" % (what, child.delta(), fresh.delta()), case)
             kc, kf = child.kappa(), Sequence(child.seq).kappa()
             ctx.check((kc == -1) == (kf == -1) and ref.close(kc, kf), "kappa", "%s: child kappa %r, fresh object %r" % (what, kc, kf), case)
-            cur = child if case.get("chain", True) else cur
+            cur = cur if stay else child          # 'stay': the next move is applied to the same object again (e.g. with another frozen set)
     if any(mv[1] for mv in case["moves"]):
         cl.append("frozen-nonempty")
     ctx.count(case, nontrivial=changed, classes=cl + gens.classify(seq)[:1])
@@ -148,7 +152,7 @@ def hyp_case(draw, max_len):
         else:
             free = draw(st.lists(st.integers(0, N - 1), max_size=3, unique=True))
             frozen = [i for i in range(N) if i not in free]
-        moves.append([name, frozen, [draw(st.integers(0, N - 1)), draw(st.integers(0, N - 1))], draw(st.booleans())])
+        moves.append([name, frozen, [draw(st.integers(0, N - 1)), draw(st.integers(0, N - 1))], draw(st.booleans()), draw(st.integers(0, 3)) == 0, draw(st.integers(0, 2)) == 0])
     return {"seq": seq, "cache": draw(st.booleans()), "moves": moves, "tape": draw(st.integers(0, 2 ** 32 - 1))}
 
 
